@@ -263,6 +263,7 @@ def _work(job):
     seq = I.sequence_of(specs)
     truths = I.monitored_sequence(plain, path, seq, ("BRANCH", "PY_START"))
     runs = I.traced_sequence(sp, code, path, seq)
+    per_exec = []      # (trace, expected covered (pid, outcome) pairs, expected code objects) of every judged execution
     for k, (truth, (exc, trace)) in enumerate(zip(truths, runs, strict=True)):
         kk = k if k < len(specs) else None
         if exc != truth["exc"]:
@@ -311,6 +312,33 @@ def _work(job):
             res["fails"].append(["code-objects:branchless-goal", f"branch-less goals covered differ from branch-less code objects entered {sorted(entered & branchless)}", kk])
         res["stats"]["runs"] = res["stats"].get("runs", 0) + 1
         res["stats"]["edges"] = res["stats"].get("edges", 0) + len(taken)
+        # what this execution is expected to contribute to a suite: the ground truth; where the single execution
+        # already deviates (reported above, possibly a known finding) its own report, so that only the merge is judged
+        per_exec.append((trace, taken if reported == taken else reported, entered if entered == rep_co else rep_co))
+    # --- suite level: traces of several executions merged the way analyze_results / ExecutionTrace.merge does ----
+    if len(per_exec) >= 2:
+        from pynguin.instrumentation.tracer import ExecutionTrace
+
+        want = set().union(*(t for _tr, t, _c in per_exec))
+        want_co = set().union(*(c for _tr, _t, c in per_exec))
+        for order, seq_tr in (("in order", per_exec), ("reversed", per_exec[::-1])):
+            merged = ExecutionTrace()
+            for tr_k, _t, _c in seq_tr:
+                merged.merge(tr_k)
+            result = _types.SimpleNamespace(execution_trace=merged)
+            got = {(pid, v) for pid, v, g in goals if g.is_covered(result)}
+            if got != want:
+                lost, extra = sorted(map(str, want - got)), sorted(map(str, got - want))
+                dist = {p: (merged.true_distances.get(p), merged.false_distances.get(p)) for p, _v in (got ^ want) if isinstance(p, int)}
+                res["fails"].append(["suite:" + ("covered-branch-lost-by-merge" if lost else "branch-gained-by-merge"),
+                                     f"{len(seq_tr)} execution traces merged {order}: branches covered by some execution but not by the "
+                                     f"merged trace {lost}; covered only by the merged trace {extra}; merged (true, false) distances {dist}", None])
+                break
+            if set(merged.executed_code_objects) != want_co:
+                res["fails"].append(["suite:code-objects-differ-after-merge",
+                                     f"merged {order}: code objects {sorted(merged.executed_code_objects)}, union of executions {sorted(want_co)}", None])
+                break
+        res["stats"]["merged_suites"] = res["stats"].get("merged_suites", 0) + 1
     return res
 
 
